@@ -174,14 +174,35 @@ class CFG(object):
 # ===========================================================================
 
 class _CCtx(object):
-    def __init__(self):
+    def __init__(self, parent=None, loop=False):
         self.breaks = []
+        # `continue` target: collected by the innermost loop; a switch context inherits its parent's
+        self.continues = [] if (loop or parent is None) else parent.continues
+
+
+_LABELS_BY_ID = {}
+
+
+def _label_name(fn, decl_id):
+    """name of the label whose LabelDecl id is decl_id (clang JSON: LabelStmt carries declId and name)"""
+    for n in fn.walk():
+        if n.kind == "LabelStmt" and n.d.get("declId") == decl_id:
+            _LABELS_BY_ID[(id(fn), decl_id)] = n.d.get("name")
+            return n.d.get("name")
+    from .core import AnalysisError
+    raise AnalysisError("%s: goto to an unknown label" % fn.name)
 
 
 def build_c(fn):
     """CFG of a C function (CNode FunctionDecl with body)."""
     g = CFG(fn.name)
     body = [c for c in fn.children if c.kind == "CompoundStmt"][0]
+    labels = {}
+
+    def label_node(name, line):
+        if name not in labels:
+            labels[name] = g.new("join", None, "label %s" % name, line)
+        return labels[name]
 
     def cond(e, t_target, f_target, frm):
         """Wire condition expression e evaluated after node(s) `frm` -> returns nothing; creates cond nodes.
@@ -234,12 +255,26 @@ def build_c(fn):
             b_entry = g.new("join", None, "body", s.line)
             after = g.new("join", None, "endwhile", s.line)
             cond(s.children[0], b_entry, after, [(head, None)])
-            c2 = _CCtx()
+            c2 = _CCtx(ctx, loop=True)
             out = stmt(s.children[1], [(b_entry, None)], c2)
-            for a, lab in out:
+            for a, lab in out + [(c_, None) for c_ in c2.continues]:
                 g.edge(a, head, "back" if lab is None else lab)
             res = [(after, None)] + [(b, None) for b in c2.breaks]
             return res
+        if k == "DoStmt":
+            b_entry = g.new("join", None, "do", s.line)
+            for a, lab in frm:
+                g.edge(a, b_entry, lab)
+            after = g.new("join", None, "enddo", s.line)
+            c2 = _CCtx(ctx, loop=True)
+            out = stmt(s.children[0], [(b_entry, None)], c2)
+            test = g.new("join", None, "dowhile", s.line)
+            for a, lab in out + [(c_, None) for c_ in c2.continues]:
+                g.edge(a, test, lab)
+            back = g.new("join", None, "doback", s.line)
+            cond(s.children[1], back, after, [(test, None)])
+            g.edge(back, b_entry, "back")
+            return [(after, None)] + [(b, None) for b in c2.breaks]
         if k == "ForStmt":
             ch = s.children  # init, condvar, cond, inc, body
             cur = frm
@@ -254,8 +289,9 @@ def build_c(fn):
                 cond(ch[2], b_entry, after, [(head, None)])
             else:
                 g.edge(head, b_entry)
-            c2 = _CCtx()
+            c2 = _CCtx(ctx, loop=True)
             out = stmt(ch[4], [(b_entry, None)], c2)
+            out = out + [(c_, None) for c_ in c2.continues]
             if ch[3].kind is not None:
                 out = stmt(ch[3], out, c2)
             for a, lab in out:
@@ -265,7 +301,7 @@ def build_c(fn):
             sel = g.new("stmt", s.children[0], "switch(%s)" % s.children[0].nsrc, s.line)
             for a, lab in frm:
                 g.edge(a, sel, lab)
-            c2 = _CCtx()
+            c2 = _CCtx(ctx)
             bodyc = s.children[-1]
             cur = []
             has_default = False
@@ -293,6 +329,28 @@ def build_c(fn):
                 g.edge(a, b, lab)
             ctx.breaks.append(b)
             return []
+        if k == "ContinueStmt":
+            b = g.new("join", None, "continue", s.line)
+            for a, lab in frm:
+                g.edge(a, b, lab)
+            ctx.continues.append(b)
+            return []
+        if k == "GotoStmt":
+            target = s.d.get("targetLabelDeclId")
+            name = _LABELS_BY_ID.get((id(fn), target)) or _label_name(fn, target)
+            j = g.new("join", None, "goto %s" % name, s.line)
+            for a, lab in frm:
+                g.edge(a, j, lab)
+            g.edge(j, label_node(name, s.line))
+            return []
+        if k == "LabelStmt":
+            ln = label_node(s.d.get("name"), s.line)
+            for a, lab in frm:
+                g.edge(a, ln, lab)
+            cur = [(ln, None)]
+            for c in s.children:
+                cur = stmt(c, cur, ctx)
+            return cur
         if k == "ReturnStmt":
             r = g.new("return", s, s.nsrc, s.line)
             for a, lab in frm:
@@ -397,12 +455,15 @@ def build_py(fn):
             it.label = "iter " + _src(s.iter)
             it.ast = s.iter
             head = g.new("cond", s, "for %s in ..." % _src(s.target), s.lineno)
-            g.edge(it, head)
             for h in exc_targets(ctx):
                 g.edge(head, h, "exc")
             b = g.new("join", None, "body", s.lineno)
             after = g.new("join", None, "endfor", s.lineno)
             els = g.new("join", None, "forelse", s.lineno)
+            if isinstance(s.iter, (ast.Tuple, ast.List)) and s.iter.elts and not any(isinstance(e, ast.Starred) for e in s.iter.elts):
+                g.edge(it, b)          # a literal non-empty sequence: the body runs at least once
+            else:
+                g.edge(it, head)
             g.edge(head, b, "T")
             g.edge(head, els, "F")
             c2 = _PCtx(ctx)
